@@ -551,9 +551,7 @@ def example_ledger(ctx, years):
     finally:
         random.setstate(state)
     entries, errors, options = loader.load_string(f.getvalue())
-    if errors:
-        raise MachineryError('example ledger does not load cleanly: %s' % errors[:2])
-    return entries, options
+    return entries, options, len(errors)
 
 
 ACCOUNTS = ['Assets:US:BofA:Checking', 'Assets:US:BofA', 'Assets:US:Vanguard:VBMPX', 'Assets:US:Vanguard:Cash',
@@ -602,6 +600,20 @@ def random_ledger(rng, ntxn):
             n += 1
             entries.append(data.Price({'filename': '<r>', 'lineno': n}, day, 'VBMPX', amount.Amount(D('11.5'), 'USD')))
     return entries
+
+
+def named_ledger(ctx, tables, name):
+    """the ledgers of the recorded runs are functions of (seed, tier, name): a replay rebuilds them"""
+    import random
+    if name == 'pool':
+        led = tuple(sorted(range(1, len(tables['pool']) + 1), key=lambda k: tables['pool'][k - 1]['txn']))
+        return build_pool_ledger(tables, led), None, 0
+    if name.startswith('random-'):
+        rng = random.Random(ctx.seed * 1000 + int(name.split('-')[1]))
+        return random_ledger(rng, rng.choice([3, 8, 20, 40])), None, 0
+    if name == 'example':
+        return example_ledger(ctx, ctx.pick(1, 2))
+    raise MachineryError('unknown ledger %s' % name)
 
 
 def plain_ascii(s):
@@ -966,22 +978,27 @@ def run(ctx):
             rng = ctx.rng
             nrun = 0
             # small: the whole pool as one ledger, every shape of the big table (this is where every clause subset runs)
-            led = tuple(sorted(range(1, len(tables['pool']) + 1), key=lambda k: tables['pool'][k - 1]['txn']))
             allidx = list(range(len(big)))
-            # quick: one seeded subset of the big table, used on every ledger (parsing a text costs 30-100 ms)
-            subset = sorted(rng.sample(allidx, 130)) if ctx.quick else allidx
+            if ctx.quick:
+                # stratified: every PRINT shape (cheap to parse), and per statement kind as many shapes with as
+                # without OPEN / CLOSE / CLEAR; one seeded subset used on every ledger (parsing a text costs 30-100 ms)
+                subset = [i for i in allidx if big[i]['kind'] == 'print']
+                for kind in ('balances', 'journal'):
+                    for cl in (False, True):
+                        pool_ = [i for i in allidx if big[i]['kind'] == kind and big[i]['clauses'] == cl]
+                        subset += rng.sample(pool_, 24)
+                subset.sort()
+            else:
+                subset = allidx
             preparse([text_of(big[i][k]) for i in subset for k in ('short', 'expanded')])
-            nrun += record_ledger(ctx, rec, 'pool', build_pool_ledger(tables, led), None, big, subset, psh)
-            # random ledgers
-            for k in range(ctx.pick(4, 40)):
-                entries = random_ledger(rng, rng.choice([3, 8, 20, 40]))
-                nrun += record_ledger(ctx, rec, 'random-%d' % k, entries, None, big,
-                                      subset if ctx.quick else rng.sample(allidx, 200), psh)
-            # the example ledger
-            entries, options = example_ledger(ctx, ctx.pick(1, 2))
-            nrun += record_ledger(ctx, rec, 'example', entries, options, big, subset, psh)
-            psh.attach(entries, options)
-            unfiltered_print_roundtrip(ctx, psh, entries, 'example')
+            names = ['pool'] + ['random-%d' % k for k in range(ctx.pick(4, 40))] + ['example']
+            for name in names:
+                entries, options, nerr = named_ledger(ctx, tables, name)
+                picks = subset if (ctx.quick or not name.startswith('random')) else sorted(rng.sample(allidx, 200))
+                nrun += record_ledger(ctx, rec, name, entries, options, big, picks, psh)
+                if name == 'example' and not nerr:
+                    psh.attach(entries, options)
+                    unfiltered_print_roundtrip(ctx, psh, entries, 'example')
             rec.close()
             with open(path) as f:
                 first = [json.loads(x) for x in itertools.islice(f, 2)]
@@ -1010,6 +1027,22 @@ def replay(ctx, rep):
         after = len(ctx.violations) + sum(v['n'] for v in ctx.known_hits.values())
         print('replay:', 'MISMATCH reproduced' if after > before else 'no mismatch')
         return 1 if after > before else 0
-    print('replay: recorded-ledger cases are re-run by the check itself (seeded): ./check C14 --tier %s --seed %s' % (
-        rep.get('tier', 'quick'), rep.get('seed')))
+    if isinstance(case.get('ledger'), str):
+        big = tables['bigshapes']
+        install_parse_memo()
+        try:
+            entries, options, _ = named_ledger(ctx, tables, case['ledger'])
+            path = ctx.path('replay_trace.ndjson')
+            rec = Recorder(ctx, path)
+            before = len(ctx.violations) + sum(v['n'] for v in ctx.known_hits.values())
+            record_ledger(ctx, rec, case['ledger'], entries, options, big, [case['shape'] - 1], PrintShell())
+            rec.close()
+            if rec.lines:
+                validate_trace(ctx, rec, path)
+            after = len(ctx.violations) + sum(v['n'] for v in ctx.known_hits.values())
+        finally:
+            uninstall_parse_memo()
+        print('replay:', 'MISMATCH reproduced' if after > before else 'no mismatch')
+        return 1 if after > before else 0
+    print('replay: case kind not replayable standalone; re-run the check')
     return 2
